@@ -131,6 +131,38 @@ impl Check for C03 {
             let r = guard(|| GdsLibrary::open(INP));
             let fired = io.borrow().errors_returned.len() > before;
             expect(r, "open", fired, &mut out);
+            // history: the file is replaced by another conformant stream of the SAME length; opening the same path again
+            // must yield the new content (a cache keyed by path/size/mtime would not)
+            if out.violation.is_none() && !with_extra && cfg == Cfg::FaultFree {
+                let mut n2 = nlib.clone();
+                n2.version = n2.version.wrapping_add(1);
+                for s in n2.structs.iter_mut() {
+                    for e in s.elems.iter_mut() {
+                        if let Some(l) = e.layer.as_mut() {
+                            *l = l.wrapping_add(1);
+                        }
+                    }
+                }
+                if let Ok(mut b2) = gdsref::encode(&n2) {
+                    b2.extend_from_slice(&bytes[endlib_end as usize..]);
+                    if b2.len() == bytes.len() {
+                        fs.put(INP, b2.clone());
+                        fs.plan(INP, FilePlan::default());
+                        match guard(|| GdsLibrary::open(INP)) {
+                            Ok(Ok(l)) => {
+                                n2.extras.clear();
+                                if let Some(d) = gdsref::diff(&n2, &model_of(&l)) {
+                                    out.violation = Some(Violation { class: "misread".into(), sig: format!("reopen-after-overwrite:{}", d), detail: format!("after the file was replaced by a different stream of the same length, open returns content that differs at {} (stale?)", d), artefact: art(&b2, &n2) });
+                                } else {
+                                    out.probes.hit("reopen_after_same_length_overwrite_ok");
+                                }
+                            }
+                            Ok(Err(e)) => out.violation = Some(Violation { class: "conformant-stream-rejected".into(), sig: format!("reopen-after-overwrite:{}", gds_err_sig(&e)), detail: format!("second open of the same path fails: {}", truncate(&e.to_string(), 200)), artefact: art(&b2, &n2) }),
+                            Err(p) => out.violation = Some(panic_violation("GdsLibrary::open(second time)", &p, art(&b2, &n2))),
+                        }
+                    }
+                }
+            }
             let hw = fs.read_marks.borrow().get(INP).map(|m| *m.borrow()).unwrap_or(0);
             if hw > endlib_end {
                 out.probes.hit("reader_touched_bytes_after_endlib");
